@@ -8,6 +8,7 @@
 #include <stdint.h>
 #include "hx.h"
 
+static unsigned junk;   /* what a FAILING request leaves in the caller's buffer: unspecified by every one of these platforms, so the outputs must not depend on it */
 static unsigned slot, polls; static uint64_t fail_mask; static int hit_failure, flip_slot = -1; static unsigned acquires, releases, acquire_fail;
 static int slot_fails(unsigned k) { return k < 64 && ((fail_mask >> k) & 1); }
 static uint32_t slot_word(unsigned k) { uint32_t w = (uint32_t)(0x9E3779B9u * (k + 1) + 0x7F4A7C15u) ^ (uint32_t)(k << 24); if ((int)k == flip_slot) w ^= 0x00010000u; return w; }
@@ -20,14 +21,14 @@ uint32_t stub_due_data(void) { polls = 0; return slot_word(slot++); }
 uint32_t esp_random(void) { return slot_word(slot++); }
 /* STM32 HAL */
 typedef struct { int instance; } RNG_HandleTypeDef; RNG_HandleTypeDef hrng;
-int HAL_RNG_GenerateRandomNumber(RNG_HandleTypeDef *h, uint32_t *x) { (void)h; unsigned k = slot++; if (slot_fails(k)) { hit_failure = 1; return 1 + (int)(k % 3); } *x = slot_word(k); return 0; }   /* failures answer HAL_ERROR, HAL_BUSY or HAL_TIMEOUT in turn: the word is left unwritten */
+int HAL_RNG_GenerateRandomNumber(RNG_HandleTypeDef *h, uint32_t *x) { (void)h; unsigned k = slot++; if (slot_fails(k)) { hit_failure = 1; *x = 0x01010101u * junk; return 1 + (int)(k % 3); } *x = slot_word(k); return 0; }   /* failures answer HAL_ERROR, HAL_BUSY or HAL_TIMEOUT in turn: the word is left unwritten */
 uint32_t HAL_GetTick(void) { return 12345; }
 /* Windows CryptoAPI */
 int CryptAcquireContextW(uintptr_t *prov, const void *c, const void *p, unsigned long type, unsigned long flags) { (void)c; (void)p; (void)type; (void)flags; if (acquire_fail) { hit_failure = 1; return 0; } acquires++; *prov = 0x1234; return 1; }
-int CryptGenRandom(uintptr_t prov, unsigned long len, unsigned char *buf) { (void)prov; unsigned k = slot; if (slot_fails(k)) { slot++; hit_failure = 1; return 0; } fill(buf, len); slot++; return 1; }
+int CryptGenRandom(uintptr_t prov, unsigned long len, unsigned char *buf) { (void)prov; unsigned k = slot; if (slot_fails(k)) { slot++; hit_failure = 1; memset(buf, (int)junk, len); return 0; } fill(buf, len); slot++; return 1; }
 int CryptReleaseContext(uintptr_t prov, unsigned long flags) { (void)prov; (void)flags; releases++; return 1; }
 /* Zephyr */
-int sys_csrand_get(void *dst, size_t len) { unsigned k = slot; if (slot_fails(k)) { slot++; hit_failure = 1; return -5; } fill(dst, len); slot++; return 0; }
+int sys_csrand_get(void *dst, size_t len) { unsigned k = slot; if (slot_fails(k)) { slot++; hit_failure = 1; memset(dst, (int)junk, len); return -5; } fill(dst, len); slot++; return 0; }
 int bt_rand(void *buf, size_t len) { return sys_csrand_get(buf, len); }
 
 typedef struct { int st[3]; uint8_t out[2][24]; int failed[3]; unsigned slots; } result;
@@ -50,7 +51,8 @@ int main(int argc, char **argv)
         /* every single failing slot, every pair of adjacent ones, and a source that always fails */
         for (unsigned k = 0; k <= base.slots + 1 && k < 62; k++) for (int two = 0; two < 3; two++) {
             uint64_t mask = two == 2 ? ~(uint64_t)0 : ((uint64_t)1 << k) | (two ? (uint64_t)1 << (k + 1) : 0); if (two == 2 && k) continue;
-            scenario(sc, mask, -1, 0, &r); hx_stat("runs", 1); hx_stat("nontrivial", 1);
+            result r2; junk = 0xA7; scenario(sc, mask, -1, 0, &r2); junk = 0; scenario(sc, mask, -1, 0, &r); hx_stat("runs", 2); hx_stat("nontrivial", 1);
+            if (memcmp(&r, &r2, sizeof r)) hx_fail(kb, "scenario %d with failing source slots %#llx: the results depend on what the failing request left in the buffer", sc, (unsigned long long)mask);
             for (int c = 0; c < 2; c++) { int want = sees_failures ? !r.failed[c] : 1;
                 if ((r.st[c] != 0) != want) hx_fail(kb, "scenario %d call %d with failing source slots %#llx: status %d, %s", sc, c, (unsigned long long)mask, r.st[c], r.failed[c] ? "although a request of this call failed" : "although every request of this call was served"); }
         }
